@@ -446,10 +446,12 @@ class Unit:
             key = (fn.get('name'), o)
             lc = it.loop_contracts.get(key)
             if lc:
-                lc = subst(lc, em.sig_info[fn['id']]['params'])
+                if '$LV' in lc and not m.group(3):
+                    raise ExtractError('loop contract uses $LV but the loop declares no induction variable')
+                lc = subst(lc.replace('$LV', m.group(3)), em.sig_info[fn['id']]['params'])
                 self._loops_applied += 1
             return (lc + '\n') if lc else ''
-        return re.sub(r'/\*LOOP:([A-Za-z0-9_]+):(\d+)\*/\n', rep, text)
+        return re.sub(r'/\*LOOP:([A-Za-z0-9_]+):(\d+):([A-Za-z0-9_]*)\*/\n', rep, text)
 
     def write_facts(self, facts):
         """B: values computed by g++ on the real headers (sizeof of records, constexpr variable templates)"""
